@@ -685,7 +685,11 @@ impl<K: KeyT, V: ValT> World<K, V> {
                     .iter()
                     .map(|x| (x[0].as_u64().unwrap() as u32, x[1].as_u64().unwrap_or(0) as u32))
                     .collect();
-                let hint = op.get("hint").and_then(|x| x.as_u64()).map(|x| x as usize).unwrap_or(items.len());
+                let hint = if op.get("hint").map_or(false, |h| h.is_object()) {
+                    usize_arg(op, "hint")
+                } else {
+                    op.get("hint").and_then(|x| x.as_u64()).map(|x| x as usize).unwrap_or(items.len())
+                };
                 let is_map = self.is_map(s);
                 let mut ids: Vec<Value> = Vec::new();
                 let (_, meta) = if is_map {
@@ -718,7 +722,11 @@ impl<K: KeyT, V: ValT> World<K, V> {
                     .iter()
                     .map(|x| (x[0].as_u64().unwrap() as u32, x[1].as_u64().unwrap_or(0) as u32))
                     .collect();
-                let hint = op.get("hint").and_then(|x| x.as_u64()).map(|x| x as usize).unwrap_or(items.len());
+                let hint = if op.get("hint").map_or(false, |h| h.is_object()) {
+                    usize_arg(op, "hint")
+                } else {
+                    op.get("hint").and_then(|x| x.as_u64()).map(|x| x as usize).unwrap_or(items.len())
+                };
                 let set = op.get("ty").and_then(|x| x.as_str()) == Some("set");
                 DEFAULT_HM.store(ou(op, "hm").unwrap_or(0) as usize, std::sync::atomic::Ordering::Relaxed);
                 let old = self.slots[s].take();
